@@ -534,3 +534,48 @@ def raw_sasl_alloc_cases(ctx):
                                  detail=json.dumps(dict(case=parts[0], go=go, meas=parts[3]))))
     return dict(evaluations=n, distinct_nontrivial=len(nontrivial), hist=hist, failures=failures, worst=worst,
                 samples=[worst.get("case", "") + " | alloc=%d recv=%d" % (worst.get("alloc", 0), worst.get("recv", 0))])
+
+
+def sasl_framing_cases(ctx):
+    """C04's clause on the authentication exchange: every request the library emits is a
+    well-formed Kafka frame whose header carries a version no higher than the broker advertised,
+    and the authentication bytes go out as a bare size-prefixed blob exactly after a v0
+    SaslHandshake (as a framed SaslAuthenticate request after a v1 handshake).  All fault-free
+    runs of the product and of the version grid (advertised MaxVersion of SaslHandshake /
+    SaslAuthenticate in {absent, -1, 0, 1, 2, 3}), Dialer and Transport paths; the fake broker's
+    journal of what arrived (api key . version, or raw) is judged by rule 3 of violations_of and
+    compared with the extracted model."""
+    gobin = go_build_c18()
+    model = L.ocaml_build("c18")
+    rc, out, err, dt = L.sh([gobin, "-seed", str(ctx.seed), "-subset", "nofault"], timeout=900)
+    if rc != 0:
+        raise L.Fail("correspondence", "harness cmd/c18 -subset nofault failed", (out[-1500:] + err[-2500:]))
+    cases = L.parse_cases(out)
+    for c in cases:
+        c["line"] = c["id"] + " " + c["op"] + " " + c["args"]
+    res = L.run_model(model, "\n".join(c["line"] for c in cases) + "\n")
+    failures, hist, nontrivial = [], {}, set()
+    for c in cases:
+        a = parse_args(c["args"])
+        k = "sasl-framing:path=%s,hs=%s,au=%s" % (a["path"], a["hs"], a["au"])
+        hist[k] = hist.get(k, 0) + 1
+        nontrivial.add(c["args"])
+        bad = [w for (w, key) in violations_of(c) if ("handshake" in w or "raw" in w or "framed" in w)]
+        for w in bad[:1]:
+            if len(failures) < 4:
+                failures.append(dict(layer="property", key=None, what="C04 SASL exchange framing: " + w,
+                                     input=dict(case=c["line"], go=c["go"], model=res.get(c["id"]), seed=ctx.seed,
+                                                replay="build/bin/c18 -seed %d -case '%s'" % (ctx.seed, c["args"])),
+                                     detail=json.dumps(dict(case=c["line"], go=c["go"], model=res.get(c["id"])))))
+    nd = 0
+    for c in cases:
+        m = res.get(c["id"])
+        if m is not None and " ; " in m:
+            m = m.split(" ; ", 1)[0]
+        if m is not None and m != c["go"] and not failures:
+            nd += 1
+            if nd <= 2:
+                failures.append(dict(layer="correspondence", what="SASL exchange (fault-free run): journal of the real client differs from the model",
+                                     input=None, detail=json.dumps(dict(case=c["line"], go=c["go"], model=m))))
+    return dict(evaluations=len(cases), distinct_nontrivial=len(nontrivial), hist=hist, failures=failures,
+                samples=[c["line"] + " | " + c["go"] for c in cases[:1] + cases[-2:]])
